@@ -40,9 +40,25 @@ func Run(cfg hx.Config) error {
 		}
 		runScenario(r, rnd, sc, procs, "")
 	}
+	// controlled schedules: the protocol machine must reproduce every transition
+	nproto := cfg.N(400, 10000)
+	for i := 0; i < nproto && !r.Stop(); i++ {
+		sc := protoScenario(rnd, r.Count)
+		var lim int
+		switch c := rnd.Intn(10); {
+		case c < 6:
+			lim = 1 + rnd.Intn(4)
+		case c < 9:
+			lim = 5 + rnd.Intn(4)
+		default:
+			lim = 9 + rnd.Intn(8)
+		}
+		controlled(r, rnd, sc, lim, i%4 == 3)
+	}
 	if n := runtime.NumGoroutine(); n > startGoroutines+2 {
 		r.Fail("", fmt.Sprintf("goroutines-left-at-end-of-run before=%d after=%d", startGoroutines, n))
 	}
+	r.Notes["controlled_schedules"] = nproto
 	r.Notes["scenarios"] = nscen
 	r.Notes["runs_per_scenario"] = 1 + extra
 	r.Notes["entry_points"] = []string{"internal/matcher.EnrichedMatch", "internal/matcher.Match", "libvuln.(*Libvuln).Scan"}
